@@ -18,12 +18,13 @@ Record case := {
   c_thread_level : bool;                 (* every thread has its own thread connection / one process connection *)
   c_table : list (Z * row) * Z;          (* rows and next id before the run *)
   c_bodies : list (list bstep);          (* one per thread *)
-  c_poison : list (option Z);            (* per thread: the row id whose parent-side instance was made to raise in expire() *)
+  c_broken : list (option Z);            (* per thread: the row id whose parent-side instance was left without attributes and with
+                                            its flag clear before the run (expire() used to raise on it); no effect on the model *)
   c_sched : list (nat * obs)             (* which thread moves, and what was seen afterwards *)
 }.
 
 Definition hexc_idx (e : hexc) : nat :=
-  match e with XUser n => 10 + n | XNotFound => 0 | XLocked => 1 | XNoConnection => 2 | XNested => 3 | XCommit => 4 end%nat.
+  match e with XUser n => 10 + n | XNotFound => 0 | XLocked => 1 | XNoConnection => 2 | XNested => 3 end%nat.
 Definition result_eqb (a b : result) : bool :=
   match a, b with
   | Return x, Return y => list_eqb Z.eqb x y
@@ -47,7 +48,7 @@ Definition obs_eqb (a b : obs) : bool :=
 Definition view_phase (ph : phase) : pview :=
   match ph with
   | PIdle _ => VIdle
-  | PRun _ _ _ _ _ _ _ _ => VRun
+  | PRun _ _ _ _ _ _ _ => VRun
   | PDone r x => VDone r (option_map (fun i => (x_obsolete i, x_released i)) x)
   end.
 
@@ -63,7 +64,6 @@ Definition start (c : case) : gst :=
      g_lock := None;
      g_proc := if c_thread_level c then None else Some (CDb 0);
      g_threads := map (fun ib => {| ts_slot := if c_thread_level c then Some (CDb (fst ib)) else None;
-                                   ts_poison := nth (fst ib) (c_poison c) None;
                                    ts_phase := PIdle (snd ib) |})
                       (combine (seq_from 0 (length (c_bodies c))) (c_bodies c)) |}.
 
